@@ -377,6 +377,13 @@ def rule_can_do(program, ctx):
         if isinstance(ev, ast.Call) and call_name(ev).endswith(".evaluate_target"):
             st = cfg.ast_of(at_node)
             tgt = st.targets[0].id if isinstance(st, ast.Assign) and isinstance(st.targets[0], ast.Name) else None
+            if tgt is None and isinstance(st, ast.Return):
+                # `return await self.evaluate_target(…)`: the role decision is whichever local must be truthy for this return to be reached
+                for cand in sorted({x.id for x in ast.walk(fn) if isinstance(x, ast.Name) and isinstance(x.ctx, ast.Store)}):
+                    ps = test_edges(cfg, lambda e, p, c=cand: p and isinstance(e, ast.Name) and e.id == c)
+                    if ps and not must_pass(cfg, ps, [at_node]):
+                        tgt = cand
+                        break
             passes = test_edges(cfg, lambda e, p: p and isinstance(e, ast.Name) and e.id == tgt)
             if tgt and not must_pass(cfg, passes, [at_node]):
                 ctx.ok(rid, label_node, "target evaluation only refines a positive role decision")
